@@ -568,9 +568,9 @@ func huntCrash(self string, p Property, tier string, seed uint64, w int, budget 
 // addresses, the clock).
 type CrossProcess interface{ CrossProcessRuns() int }
 
-func digestsOf(self string, p Property, tier string, seed uint64, n int) (map[uint64]uint64, error) {
+func digestsOf(self string, p Property, tier string, seed uint64, n int, tz string) (map[uint64]uint64, error) {
 	cmd := exec.Command(self, "worker", "-prop", p.ID(), "-tier", tier, "-seed", strconv.FormatUint(seed, 10), "-w", "0", "-runs", strconv.Itoa(n), "-digests")
-	cmd.Env = append(os.Environ(), "GOMAXPROCS=2")
+	cmd.Env = append(os.Environ(), "GOMAXPROCS=2", "TZ="+tz)
 	out, err := cmd.Output()
 	if err != nil {
 		return nil, err
@@ -588,9 +588,11 @@ func digestsOf(self string, p Property, tier string, seed uint64, n int) (map[ui
 }
 
 func crossProcess(self string, p Property, tier string, seed uint64, n int) (*Replay, map[string]any, []string) {
-	info := map[string]any{"runs_compared": n, "processes": 2, "what": "per-run digest of every observable, same run seeds in two fresh processes"}
-	a, err1 := digestsOf(self, p, tier, seed, n)
-	b, err2 := digestsOf(self, p, tier, seed, n)
+	info := map[string]any{"runs_compared": n, "processes": 2, "what": "per-run digest of every observable, same run seeds in two fresh processes (TZ=UTC and TZ=Pacific/Kiritimati)"}
+	// two fresh processes in different ambient time zones: what the library computes from its
+	// inputs must not depend on either
+	a, err1 := digestsOf(self, p, tier, seed, n, "UTC")
+	b, err2 := digestsOf(self, p, tier, seed, n, "Pacific/Kiritimati")
 	if err1 != nil || err2 != nil {
 		return nil, info, []string{fmt.Sprintf("cross-process comparison: worker failed (%v, %v)", err1, err2)}
 	}
@@ -600,11 +602,13 @@ func crossProcess(self string, p Property, tier string, seed uint64, n int) (*Re
 		}
 		rs := RunSeed(seed, p.ID(), 0, i)
 		// name the observable: dump both processes' observables for that run
-		dump := func() []string {
-			out, _ := exec.Command(self, "obsdump", "-prop", p.ID(), "-tier", tier, "-runseed", strconv.FormatUint(rs, 10)).Output()
+		dump := func(tz string) []string {
+			c := exec.Command(self, "obsdump", "-prop", p.ID(), "-tier", tier, "-runseed", strconv.FormatUint(rs, 10))
+			c.Env = append(os.Environ(), "TZ="+tz)
+			out, _ := c.Output()
 			return strings.Split(strings.TrimSpace(string(out)), "\n")
 		}
-		d1, d2 := dump(), dump()
+		d1, d2 := dump("UTC"), dump("Pacific/Kiritimati")
 		what := "(not reproduced by the observable dump)"
 		for k := 0; k < len(d1) && k < len(d2); k++ {
 			if d1[k] != d2[k] {
